@@ -2150,7 +2150,19 @@ def c13_smaps(model, meta):
     files = {f"{pid}/smaps": text.encode(), f"{pid}/smaps_rollup": rollup.encode(), f"{pid}/stat": build_stat(pid, b"x", F),
              f"{pid}/statm": b"100 50 10 5 0 20 0\n"}
     want3 = (priv * 1024, pss * 1024, swap * 1024)
-    with fake_procfs(files):
+    # the roll-up file of a LIVE process may be missing (old kernel) or refuse to open with ESRCH: memory_full_info() then
+    # answers from the per-mapping listing, with the same figures
+    rollup_fault = model.get("rollup", "ok")
+    real_ob = _pslinux.open_binary
+
+    def ob(fname, *a, **k):
+        if rollup_fault != "ok" and fname.endswith("/smaps_rollup"):
+            if rollup_fault == "enoent":
+                raise FileNotFoundError(2, "No such file or directory", fname)
+            raise ProcessLookupError(3, "No such process", fname)
+        return real_ob(fname, *a, **k)
+
+    with fake_procfs(files), mock.patch.object(_pslinux, "open_binary", ob):
         p = _pslinux.Process(pid)
         fp = psutil.Process(pid)
         try:
@@ -2158,9 +2170,10 @@ def c13_smaps(model, meta):
                 a = p._parse_smaps()
                 if tuple(a) != want3:
                     problems.append(f"_parse_smaps() == {tuple(a)}, per-mapping sums {want3}")
-            b = p._parse_smaps_rollup()
-            if tuple(b) != want3:
-                problems.append(f"_parse_smaps_rollup() == {tuple(b)}, expected {want3}")
+            if rollup_fault == "ok":
+                b = p._parse_smaps_rollup()
+                if tuple(b) != want3:
+                    problems.append(f"_parse_smaps_rollup() == {tuple(b)}, expected {want3}")
             full = p.memory_full_info()
             if (full.uss, full.pss, full.swap) != want3:
                 problems.append(f"memory_full_info() uss/pss/swap == {(full.uss, full.pss, full.swap)}, expected {want3}")
@@ -2193,10 +2206,11 @@ def c13_smaps_search(meta, seed, budget):
     import random
     rng = random.Random(seed)
     pool = ["/usr/lib/libc.so.6", "", "[heap]", "[stack]", "/tmp/my file: x", "/tmp/gone (deleted)", "/a:b/c", "/usr/lib/libc.so.6",
-            "[vdso]", "/dev/shm/x y (deleted)"]
+            "[vdso]", "/dev/shm/x y (deleted)", "/srv/data/report  final.db", "/x   y  z", "/two  spaces (deleted)"]
     for n in range(budget):
         k = rng.randrange(0 if n % 10 == 0 else 1, 5)
-        yield {"seed": seed * 100003 + n, "paths": [rng.choice(pool) for _ in range(k)]}
+        yield {"seed": seed * 100003 + n, "paths": [rng.choice(pool) for _ in range(k)],
+               "rollup": ("ok", "ok", "enoent", "esrch")[n % 4] if k else "ok"}
 
 
 # ---------------------------------------------------------------------------
